@@ -748,7 +748,11 @@ func runCut(w *world, ref *reference, k, second int, siblingFirst bool) (cutResu
 	r.node.Close()
 	res.Events = len(r.evs)
 	res.Phases = r.crashPhases
-	res.OwnDiff = r.ownDiff
+	if !siblingFirst {
+		// in the sibling-first variant the restarted node has seen other blocks than the uninterrupted node had when
+		// it packed: another vote is legitimate there
+		res.OwnDiff = r.ownDiff
+	}
 	return res, r.evs
 }
 
